@@ -73,10 +73,55 @@ pub fn case_trusted(bytes: &[u8], ctx: &mut Ctx) -> CaseResult {
     // spend-level extras (allowed by consensus: "(parent puzzle amount solution . extra)")
     let extra_kind = if s.chance(50) { 1 + s.below(3) } else { 0 };
     let extra_at = s.below(b.spends.len().max(1));
+    // (choices added later are read last, so that older replay files keep their meaning)
+    // generator-identity pricing: full validation then charges the interned size
+    // of the generator instead of its serialized length
+    let interned = s.chance(64);
+    // rarely: a block whose generator is around a megabyte of highly repetitive
+    // content (thousands of spends of one puzzle, or a hundred spends carrying the
+    // same 10 kB atom). Serialized without back-references it is only valid where
+    // interned pricing applies; the trusted helpers must handle every such block.
+    let bulk = s.below(1200);
+    let bulk_n = s.below(1 << 16);
+    let bulk = if bulk >= 1198 { bulk - 1197 } else { 0 };
+    let flags = if interned || (bulk != 0 && bulk_n % 4 != 0) { flags | ConsensusFlags::INTERNED_GENERATOR } else { flags };
     ctx.ran_dry(s.ran_dry());
     let mut t: Tree = b.tree.clone();
     let mut nodes: Vec<Tid> = vec![];
+    if bulk != 0 {
+        let phs = condgen::tag_puzzle_hashes();
+        let pz = condgen::tagged_identity(&mut t, 1);
+        let op = t.atom(&[1]);
+        let (n, filler) = if bulk == 1 {
+            (1500 + (bulk_n * 2000 >> 16), vec![0x33u8; 280])
+        } else {
+            (50 + (bulk_n * 70 >> 16), vec![0x5au8; 10_000])
+        };
+        let fa = t.atom(&filler);
+        let remark = t.list(&[op, fa]);
+        let plain_sol = t.list(&[remark]);
+        // every 16th spend also creates a hinted coin
+        let cc = t.atom(&[51]);
+        let ph = t.atom(&phs[1]);
+        let one = t.atom(&[1]);
+        let hint = t.atom(&[0x48u8; 32]);
+        let memos = t.list(&[hint]);
+        let create = t.list(&[cc, ph, one, memos]);
+        let rich_sol = t.list(&[remark, create]);
+        let am = t.atom(&enc_u64(7));
+        for i in 0..n {
+            let mut parent = [0x79u8; 32];
+            parent[28..32].copy_from_slice(&(i as u32).to_be_bytes());
+            let pa = t.atom(&parent);
+            let sol = if i % 16 == 3 { rich_sol } else { plain_sol };
+            nodes.push(t.list(&[pa, pz, am, sol]));
+        }
+        ctx.label(if bulk == 1 { "bulk:thousands-of-spends-of-one-puzzle" } else { "bulk:same-10kB-atom-in-every-spend" });
+    }
     for (i, sp) in b.spends.iter().enumerate() {
+        if bulk != 0 {
+            break;
+        }
         let pa = t.atom(&sp.parent);
         let am = t.atom(&enc_u64(sp.amount));
         let mut fields = vec![pa, sp.puzzle, am, sp.cond_list];
@@ -108,7 +153,13 @@ pub fn case_trusted(bytes: &[u8], ctx: &mut Ctx) -> CaseResult {
         node_to_bytes(&a0, pn).unwrap()
     };
     let refs: Vec<Vec<u8>> = vec![];
-    ctx.render(|| format!("flags={flags:?} backrefs={backrefs} generator=(q . {})", t.render(output)));
+    ctx.render(|| {
+        if bulk != 0 {
+            format!("flags={flags:?} backrefs={backrefs} bulk generator of {} spends ({} bytes): first spend {}", nodes.len(), program.len(), t.render(nodes[0]))
+        } else {
+            format!("flags={flags:?} backrefs={backrefs} generator=(q . {})", t.render(output))
+        }
+    });
     for l in &b.labels {
         if l.starts_with("memo:") {
             ctx.label(l.clone());
@@ -118,7 +169,15 @@ pub fn case_trusted(bytes: &[u8], ctx: &mut Ctx) -> CaseResult {
         ctx.label("spend-level-extra");
     }
 
-    let validated = match run_block_generator2(&program, &refs, u64::MAX / 4, flags, &Signature::default(), None, &TEST_CONSTANTS) {
+    if bulk != 0 {
+        ctx.label(match program.len() {
+            0..=499_999 => "bulk-generator-bytes:<500k",
+            500_000..=899_999 => "bulk-generator-bytes:500k-900k",
+            _ => "bulk-generator-bytes:>=900k",
+        });
+    }
+    // "a block that full validation accepts": within the block cost limit
+    let validated = match run_block_generator2(&program, &refs, TEST_CONSTANTS.max_block_cost_clvm, flags, &Signature::default(), None, &TEST_CONSTANTS) {
         Ok((a, c)) => proglevel::owned(&a, c),
         Err(_) => {
             ctx.label("not-accepted");
@@ -126,6 +185,15 @@ pub fn case_trusted(bytes: &[u8], ctx: &mut Ctx) -> CaseResult {
         }
     };
     ctx.label("accepted");
+    if flags.contains(ConsensusFlags::INTERNED_GENERATOR) {
+        ctx.label("accepted:interned-pricing");
+    }
+    if bulk != 0 {
+        ctx.label("bulk:accepted");
+        if !backrefs && program.len() >= 900_000 {
+            ctx.label("bulk:accepted-plain-generator>=900k");
+        }
+    }
     let want_additions = validated_additions(&validated);
 
     // ---- 1. additions_and_removals
@@ -215,7 +283,26 @@ pub fn case_trusted(bytes: &[u8], ctx: &mut Ctx) -> CaseResult {
         created.sort();
         let mut want: Vec<(Vec<u8>, u64)> = sp.create_coin.iter().map(|(ph, am, _)| (ph.as_slice().to_vec(), *am)).collect();
         want.sort();
-        vensure!(created == want, "C09:with_conditions:create-coin", "spend {i}: CREATE_COIN entries {created:?} vs validated {want:?}");
+        // this display helper documents that it skips any condition with an
+        // argument atom of 1024 bytes or more: then only "nothing invented" holds
+        let has_long_atom = bulk == 0 && b.spends.get(i).is_some_and(|g| {
+            let (items, _) = t.list_items(g.cond_list);
+            items.iter().any(|c| t.list_items(*c).0.iter().any(|x| t.atom_bytes(*x).is_some_and(|a| a.len() >= 1024)))
+        });
+        if has_long_atom {
+            ctx.label("with-conditions:spend-with-long-argument-atom");
+            let mut rest = want.clone();
+            for c in &created {
+                match rest.iter().position(|w| w == c) {
+                    Some(p) => {
+                        rest.remove(p);
+                    }
+                    None => vfail!("C09:with_conditions:create-coin", "spend {i}: CREATE_COIN entry {c:?} is not among the validated {want:?}"),
+                }
+            }
+        } else {
+            vensure!(created == want, "C09:with_conditions:create-coin", "spend {i}: CREATE_COIN entries {created:?} vs validated {want:?}");
+        }
     }
 
     // ---- 4. get_puzzle_and_solution_for_coin for every removed coin
@@ -225,7 +312,11 @@ pub fn case_trusted(bytes: &[u8], ctx: &mut Ctx) -> CaseResult {
         let args = setup_generator_args(&mut a, &refs, flags).expect("args");
         let dialect = ChiaDialect::new(flags.to_clvm_flags());
         let Reduction(_, result) = run_program(&mut a, &dialect, pnode, args, u64::MAX / 4).expect("generator runs");
+        let stride = if bulk != 0 { (validated.spends.len() / 6).max(1) } else { 1 };
         for (i, sp) in validated.spends.iter().enumerate() {
+            if i % stride != 0 {
+                continue;
+            }
             let coin = Coin::new(sp.parent_id, sp.puzzle_hash, sp.coin_amount);
             match get_puzzle_and_solution_for_coin(&a, result, &coin) {
                 Err(e) => {
@@ -303,7 +394,7 @@ fn hexs(b: &[u8]) -> String {
 pub fn property() -> Property {
     Property {
         id: "C09",
-        rule: "a case is a block generator (quoted output, plain or back-reference serialized) over bundles from the shared generator in careful mode — the full catalogue of CREATE_COIN memo shapes (absent, (), hint of 32/short/33 bytes, empty first memo, pair as first memo, improper memo list, several memos, atom instead of list), amounts of every encoding, unknown and non-atom opcodes in between, optional spend-level extra fields — under 8 flag sets. Only generators accepted by run_block_generator2 are examined. Non-trivial = accepted generator with ≥1 CREATE_COIN carrying a memo structure; distinct by (program bytes, flags).",
+        rule: "a case is a block generator (quoted output, plain or back-reference serialized) over bundles from the shared generator in careful mode — the full catalogue of CREATE_COIN memo shapes (absent, (), hint of 32/short/33 bytes, empty first memo, pair as first memo, improper memo list, several memos, atom instead of list), amounts of every encoding, unknown and non-atom opcodes in between, optional spend-level extra fields — under 8 flag sets x {byte pricing, INTERNED_GENERATOR pricing}; about 1 case in 600 is instead a bulk block of ~0.5-1.3 MB of repetitive content (1500-3500 spends of one puzzle, or 50-120 spends carrying the same 10 kB atom; the lookups are then sampled). Only generators accepted by run_block_generator2 within the block cost limit are examined. Non-trivial = accepted generator with ≥1 CREATE_COIN carrying a memo structure; distinct by (program bytes, flags).",
         assumptions: &[
             "the validated conditions of run_block_generator2 are the reference; the helpers are compared with them",
             "generator output for get_puzzle_and_solution_for_coin is produced by the harness with clvmr::run_program and chia-consensus setup_generator_args",
@@ -315,7 +406,7 @@ pub fn property() -> Property {
             run: case_trusted,
             inflight: false,
             min_nontrivial: 15_000,
-            required_labels: &["accepted", "memo:hint32", "memo:empty-first", "memo:improper", "memo:several", "memo:pair-first", "spend-level-extra"],
+            required_labels: &["accepted", "memo:hint32", "memo:empty-first", "memo:improper", "memo:several", "memo:pair-first", "spend-level-extra", "accepted:interned-pricing", "bulk:accepted-plain-generator>=900k"],
         }],
         death_is_violation: false,
     }
